@@ -9,6 +9,10 @@ Open Scope list_scope.
 Theorem C09_generated_guard_by_identity : guard_by_identity sandbox_facts = true.
 Proof. reflexivity. Qed.
 
+(* the field_* helpers read the fields a selector names through _field_value, which refuses double-underscore names *)
+Theorem C09_generated_helpers_refuse_dunder : helpers_refuse_dunder sandbox_facts = true.
+Proof. reflexivity. Qed.
+
 (* what selectors may call: str repr any all, `fields`, and exactly the FUNCTION_WHITELIST helpers *)
 Theorem C09_generated_exposed_callables :
   exposed_callables sandbox_facts = ["str"; "repr"; "fields"; "any"; "all"] ++ function_whitelist_names.
@@ -17,13 +21,14 @@ Proof. reflexivity. Qed.
 (* HEADLINE.  For EVERY expression tree (every node kind the parser can produce, any nesting), every behaviour of the
    objects involved (truthiness, iteration, what helpers find in their arguments -- the three oracles are universally
    quantified) and every evaluation budget: every call the evaluation performs has a callee that is one of the exposed
-   functions or a whitelisted field-type constructor, and every attribute it reads for an ast.Attribute node has a name
-   that does not start with two underscores.  A refused call/attribute performs no event for the refused object. *)
+   functions or a whitelisted field-type constructor, and every attribute it reads -- for an ast.Attribute node, or inside
+   a field_* helper for a field name the selector passes -- has a name that does not start with two underscores.  A refused call/attribute performs no event for the refused object. *)
 Theorem C09_sandbox : forall truthy elems helper_fields fuel n,
   Forall (fun e => ev_ok sandbox_facts e = true)
          (snd (snd (eval sandbox_facts truthy elems helper_fields fuel (ns0 sandbox_facts, []) n))).
 Proof.
-  intros. apply (eval_preserves sandbox_facts truthy elems helper_fields C09_generated_guard_by_identity fuel).
+  intros. apply (eval_preserves sandbox_facts truthy elems helper_fields C09_generated_guard_by_identity
+                             C09_generated_helpers_refuse_dunder fuel).
   constructor.
 Qed.
 
@@ -32,7 +37,8 @@ Theorem C09_sandbox_any_namespace : forall truthy elems helper_fields fuel d n,
   Forall (fun e => ev_ok sandbox_facts e = true)
          (snd (snd (eval sandbox_facts truthy elems helper_fields fuel (d, []) n))).
 Proof.
-  intros. apply (eval_preserves sandbox_facts truthy elems helper_fields C09_generated_guard_by_identity fuel).
+  intros. apply (eval_preserves sandbox_facts truthy elems helper_fields C09_generated_guard_by_identity
+                             C09_generated_helpers_refuse_dunder fuel).
   constructor.
 Qed.
 
@@ -48,7 +54,8 @@ Proof. exact (allowed_spec sandbox_facts). Qed.
 (* ---- witnesses: with the pre-fix guard (decision by resolved name) the statement is false ---- *)
 Definition prefix_facts : facts :=
   {| exposed_callables := exposed_callables sandbox_facts; plain_names := plain_names sandbox_facts;
-     whitelist := whitelist sandbox_facts; guard_by_identity := false; helper_names := helper_names sandbox_facts |}.
+     whitelist := whitelist sandbox_facts; guard_by_identity := false; helper_names := helper_names sandbox_facts;
+     helpers_refuse_dunder := helpers_refuse_dunder sandbox_facts |}.
 Definition t_true (o : obj) := true.
 Definition no_elems (o : obj) : list obj := match o with OSeq l => l | _ => [] end.
 Definition no_fields (o : obj) : list string := [].
@@ -63,12 +70,22 @@ Theorem C09_hostile1_refused_now :
      (ns0 sandbox_facts, [EvGetattr ORec "s"; EvCall (OFun "lower") 1; EvGetattr (OCall (OFun "lower") [OAttr ORec "s"]) "upper"])).
 Proof. vm_compute. reflexivity. Qed.
 
-(* whitelisted helpers read getattr(r, <string argument>) themselves, dunder names included (known finding) *)
-Definition helper_dunder := NCall (NName "field_equals") [NName "r"; NList [NConst true]; NList [NConst true]] [].
+(* field_equals(r, [<names>], ...) where the helper finds "a" and then "__class__" in its field list: "a" is read, the
+   double-underscore name is refused with InvalidOperation before the record is touched *)
+Definition helper_dunder := NCall (NName "field_equals") [NName "r"; NList [NConst true; NConst true]; NList [NConst true]] [].
+Theorem C09_helper_dunder_refused_now :
+  eval sandbox_facts t_true no_elems (fun _ => ["a"; "__class__"; "b"]) 8 (ns0 sandbox_facts, []) helper_dunder
+  = (Err InvalidOperation, (ns0 sandbox_facts, [EvCall (OFun "field_equals") 3; EvHelperGetattr "a"])).
+Proof. vm_compute. reflexivity. Qed.
+(* witness: with helpers that getattr(r, <user string>) directly (the code before fix cdcae2a) the statement is false *)
+Definition prefix_helper_facts : facts :=
+  {| exposed_callables := exposed_callables sandbox_facts; plain_names := plain_names sandbox_facts;
+     whitelist := whitelist sandbox_facts; guard_by_identity := true; helper_names := helper_names sandbox_facts;
+     helpers_refuse_dunder := false |}.
 Theorem C09_refuted_helper_reads_dunder :
-  In (EvHelperGetattr "__class__")
-     (snd (snd (eval sandbox_facts t_true no_elems (fun _ => ["__class__"]) 8 (ns0 sandbox_facts, []) helper_dunder))).
-Proof. vm_compute. repeat (try (left; reflexivity); right). Qed.
+  existsb (fun e => negb (ev_ok prefix_helper_facts e))
+          (snd (snd (eval prefix_helper_facts t_true no_elems (fun _ => ["a"; "__class__"; "b"]) 8 (ns0 prefix_helper_facts, []) helper_dunder))) = true.
+Proof. vm_compute. reflexivity. Qed.
 
 (* non-vacuity: a hostile expression that reaches calls and attribute reads *)
 Example C09_trace_nonempty :
